@@ -2411,8 +2411,11 @@ class Statements(Sequence, Immutable):
         else:
             keep = set()
         candidates -= keep
-        # Other dependencies after removed_ind
-        additional = {down for up, down in graph.edges if up > removed_ind and down in candidates}
+        # Other statements (before or after removed_ind) that are not removed themselves
+        # but still read a candidate
+        additional = {
+            down for up, down in graph.edges if up not in candidates and down in candidates
+        }
         for add in additional.copy():
             additional |= set(nx.dfs_preorder_nodes(graph, add))
         remove = candidates - additional
